@@ -579,6 +579,14 @@ func (e *Engine) registerModels() {
 		}
 		return Str{elems: out}
 	}
+	m["strings.LastIndex"] = func(in *Interp, fn *ssa.Function, a []Value) Value {
+		s, ok1 := a[0].(Str).concrete()
+		sub, ok2 := a[1].(Str).concrete()
+		if !ok1 || !ok2 {
+			panic(unsupported("strings.LastIndex on symbolic strings"))
+		}
+		return in.tt.BV(64, uint64(int64(strings.LastIndex(s, sub))))
+	}
 	m["strings.HasPrefix"] = func(in *Interp, fn *ssa.Function, a []Value) Value {
 		s := a[0].(Str)
 		pre := a[1].(Str)
